@@ -201,3 +201,24 @@ Proof.
   rewrite build_from_eq. unfold cb_end_element. cbn [b_stack bnext b_lang b_charset b_root f_tag f_attrs f_done].
   unfold frame_node, frame_children, cdata_nodes. cbn [f_tag f_attrs f_done f_cdata app]. rewrite Hc. cbn [app]. reflexivity.
 Qed.
+
+(* ---- the text nodes of tn_union are not empty: the XML generator accepts the tree ---- *)
+Definition is_nechars (ev : event) : bool := match ev with EvChars (_ :: _) => true | _ => false end.
+Lemma nechars_chars b : forallb is_nechars (MG.chars b) = true.
+Proof. destruct b; reflexivity. Qed.
+
+Lemma tev_u_nechars L e keep f p c : forallb is_nechars (UN.tev_u L e keep f p c) = true.
+Proof.
+  unfold UN.tev_u. destruct (UN.class_of (D2.to_blang L)).
+  - unfold Proofs.EncWbxmlDenoteWv.tev_wv. destruct (Proofs.EncWbxmlDenoteWv.wv_norm keep c); [reflexivity|].
+    cbv zeta. repeat match goal with |- context [if ?b then _ else _] => destruct b end; apply nechars_chars.
+  - unfold Proofs.EncWbxmlClasses.tev_drm. destruct (Proofs.EncWbxmlDenoteWv.wv_norm keep c); [reflexivity|].
+    destruct (Proofs.EncWbxmlClasses.is_keyvalue p); apply nechars_chars.
+  - unfold Proofs.EncWbxmlClasses.tev_sy. destruct (Proofs.EncWbxmlDenoteWv.wv_norm keep c); [reflexivity|]. apply nechars_chars.
+  - unfold D5.tev_plain. destruct (Proofs.EncWbxmlAbs4.tag_bin p); [apply nechars_chars|].
+    unfold TreeNorm.norm_text. destruct (keep || false); [|destruct (E.only_ws c)]; cbn [flat_map TK.events3 app]; try reflexivity;
+      match goal with |- context [cstr ?x] => destruct (cstr x) end; reflexivity.
+  - unfold D5.tev_plain. destruct (Proofs.EncWbxmlAbs4.tag_bin p); [apply nechars_chars|].
+    unfold TreeNorm.norm_text. destruct (keep || false); [|destruct (E.only_ws c)]; cbn [flat_map TK.events3 app]; try reflexivity;
+      match goal with |- context [cstr ?x] => destruct (cstr x) end; reflexivity.
+Qed.
